@@ -98,7 +98,10 @@ func FindArrayIndex(str string) ([][]int, error) {
 		switch r {
 		case '\\':
 			{
-				i++
+				// between backticks a backslash is an ordinary character
+				if hold == nil || *hold != '`' {
+					i++
+				}
 			}
 		case '"':
 			{
